@@ -15,7 +15,10 @@ REQUIRED_THEOREMS = ['apply_fiberwise', 'fn_uniform', 'apply_shape', 'reducers_e
 RULE = ('random files (as C02; float64 and int32 variables, masked and unmasked, coordinate variables) x 1-3 '
         'dimension functions in random keyword order: named reducers mean/sum/min/max/var (array methods, '
         'keepdims) and callables np.diff, x[::2], np.cumsum, x[::-1], np.convolve(x,[1,1],"valid") (the last '
-        'only on unmasked data); std and float32 variables run through the oracle only (tolerance); '
+        'only on unmasked data); std and float32 variables run through the oracle only (tolerance); the string front ends '
+        'reduce_dim (mean/sum/min/max/std/var/median/ptp, masked and unmasked) and convolve_dim (valid/same/full, symmetric and '
+        'asymmetric dyadic weights) against numpy / numpy.ma (and the Lean model for the modelled reducers); IOAPI files: '
+        'applyAlongDimensions along LAY/TSTEP/ROW with reducers and callables incl. x[::2] and x[[0,-1]] (C10 model + level edges); '
         'non-trivial = some variable has a named dimension and another does not, or two dimensions are named')
 ASSUMPTIONS = ['numpy / numpy.ma reductions and apply_along_axis behave as the per-fiber model says',
                'results are stored in the declared type of the variable (integer variables: C cast of the float result)',
@@ -54,12 +57,64 @@ def _case(rng):
     return dict(spec=spec, fns=fns)
 
 
+LEGACY_FUNCS = ['mean', 'sum', 'min', 'max', 'std', 'var', 'median', 'ptp']
+
+
+def _legacy_reduce_case(rng):
+    """the string front end reduce_dim(f, 'dim,func')"""
+    spec = pfile.gen_file(rng, maxlen=4, minlen=2)
+    for v in spec['vars']:
+        if v['dtype'] == 'f':
+            v['dtype'] = 'd'
+    n = rng.choice([d[0] for d in spec['dims']])
+    fn = rng.choice(LEGACY_FUNCS)
+    return dict(kind='reduce', spec=spec, fns=[[n, fn]], text='%s,%s' % (n, fn))
+
+
+def _legacy_convolve_case(rng):
+    """convolve_dim(f, 'dim,mode,w1,w2,...') with symmetric and asymmetric dyadic weights (unmasked files)"""
+    spec = pfile.gen_file(rng, maxlen=5, minlen=3, masked_prob=0.0)
+    for v in spec['vars']:
+        if v['dtype'] == 'f':
+            v['dtype'] = 'd'
+    n = rng.choice([d[0] for d in spec['dims'] if d[1] >= 3] or [spec['dims'][0][0]])
+    w = rng.choice([[1, -1], [0.5, 0.5], [0.5, 0.25, 0.25], [1, 0, -1], [2, 1], [0.25, 0.75]])
+    mode = rng.choice(['valid', 'same', 'full'])
+    return dict(kind='convolve', spec=spec, fns=[], dim=n, mode=mode, w=w, text='%s,%s,%s' % (n, mode, ','.join(str(x) for x in w)))
+
+
+def _ioapi_case(rng):
+    from . import c10
+    d = rng.choice(['LAY', 'LAY', 'TSTEP', 'ROW'])
+    fn = rng.choice(['mean', 'sum', 'min', 'max', 'first2', 'rev', 'every2', 'ends'])
+    src = c10._src(rng)
+    src['nl'] = rng.randint(2, 3)
+    src['kind'] = rng.choice(['arrays', 'arrays', 'disk'])
+    return dict(kind='ioapi', fns=[], c10=dict(src=src, recipes=[], ops=[['apply', d, fn]]))
+
+
 def gen(rng, tier):
     n = 300 if tier == 'quick' else 10000
-    return [_case(rng) for _ in range(n)]
+    out = [_case(rng) for _ in range(n)]
+    out += [_legacy_reduce_case(rng) for _ in range(n // 8)]
+    out += [_legacy_convolve_case(rng) for _ in range(n // 10)]
+    out += [_ioapi_case(rng) for _ in range(n // 10)]
+    return out
 
 
 def impl(case):
+    if case.get('kind') == 'ioapi':
+        from . import c10
+        return c10.impl(case['c10'])
+    if case.get('kind') in ('reduce', 'convolve'):
+        from PseudoNetCDF.core._functions import convolve_dim, reduce_dim
+        f = pfile.build(case['spec'])
+        try:
+            with lib.pnc_warnings(), np.errstate(all='ignore'):
+                o = (reduce_dim if case['kind'] == 'reduce' else convolve_dim)(f, case['text'])
+            return dict(obs=pfile.observe(o))
+        except Exception as e:
+            return dict(err=type(e).__name__, msg=str(e)[:100])
     f = pfile.build(case['spec'])
     kw = {k: (fn if fn in REDUCERS else PYFN[fn]) for k, fn in case['fns']}
     try:
@@ -71,12 +126,36 @@ def impl(case):
 
 
 def to_line(case, res):
+    if case.get('kind') == 'ioapi':
+        from . import c10
+        return c10.to_line(case['c10'], res)
+    if case.get('kind') == 'convolve' or (case.get('kind') == 'reduce' and case['fns'][0][1] not in REDUCERS):
+        return 'c03 apply x:1:f - - -'      # no model question (oracle only)
     d, v, a = pfile.encode(case['spec'])
     fns = ';'.join('%s=%s' % (k, fn) for k, fn in case['fns']) or '-'
     return 'c03 apply %s %s %s %s' % (d, v, a, fns)
 
 
 def agree(case, out, res):
+    if case.get('kind') == 'ioapi':
+        from . import c10
+        return c10.agree(case['c10'], out, res)
+    if case.get('kind') == 'convolve' or (case.get('kind') == 'reduce' and case['fns'][0][1] not in REDUCERS):
+        return None
+    if case.get('kind') == 'reduce' and 'obs' in res and out.startswith('ok '):
+        # reduce_dim adds a history attribute and drops nothing else: compare dimensions and variable data with the
+        # model of applyAlongDimensions(dim=func)
+        a, b = pfile.parse_obs(out[3:]), pfile.parse_obs(res['obs'])
+        a['attrs'] = b['attrs']
+        for k in a['vars']:
+            if k in b['vars']:
+                a['vars'][k]['attrs'] = b['vars'][k]['attrs']
+                a['vars'][k]['flag'] = b['vars'][k]['flag']
+        for v in case['spec']['vars']:
+            # reduce_dim keeps the float result of an integer variable (applyAlongDimensions casts it): not compared
+            if v['dtype'] == 'i' and v['name'] in a['vars'] and v['name'] in b['vars'] and case['fns'][0][0] in v['dims']:
+                a['vars'][v['name']]['cells'] = b['vars'][v['name']]['cells'] = '-'
+        return pfile.diff_parsed_numeric(a, b)
     if 'err' in res:
         return None if out.startswith('err') else 'impl raised %s (%s), model %s' % (res['err'], res.get('msg'), out[:80])
     if not out.startswith('ok '):
@@ -93,6 +172,10 @@ def agree(case, out, res):
 
 def oracle(case, res):
     """numpy / numpy.ma applied directly along the corresponding axes of the input arrays"""
+    if case.get('kind') == 'ioapi':
+        return _oracle_ioapi(case, res)
+    if case.get('kind') in ('reduce', 'convolve'):
+        return _oracle_legacy(case, res)
     spec = case['spec']
     dl = {d[0]: d[1] for d in spec['dims']}
     fns = dict((k, fn) for k, fn in case['fns'])
@@ -146,11 +229,93 @@ def oracle(case, res):
     return None
 
 
+def _oracle_legacy(case, res):
+    spec = case['spec']
+    dl = {d[0]: d[1] for d in spec['dims']}
+    if 'err' in res:
+        return 'in-domain call %s raised %s %s' % (case['text'], res['err'], res.get('msg'))
+    got = pfile.parse_obs(res['obs'])
+    if case['kind'] == 'reduce':
+        dim, fn = case['fns'][0]
+        wantlen = 1
+    else:
+        dim = case['dim']
+        w32 = np.array(case['w'], dtype='f')
+        wantlen = len(np.convolve(w32, np.arange(dl[dim]), mode=case['mode']))
+    for k, n in dl.items():
+        want = wantlen if k == dim else n
+        if got['dims'].get(k, (None,))[0] != want:
+            return '%s: dimension %s has length %s, expected %d' % (case['text'], k, got['dims'].get(k), want)
+    for v in spec['vars']:
+        shape = pfile.shape_of(spec, v)
+        vals = np.array([0 if x is None else x for x in v['data']], dtype='d').reshape(shape)
+        mask = np.array([x is None for x in v['data']], dtype=bool).reshape(shape)
+        arr = np.ma.masked_array(vals, mask=mask) if v['masked'] else vals
+        touched = dim in v['dims']
+        if touched:
+            ax = v['dims'].index(dim)
+            if case['kind'] == 'reduce':
+                mod = np.ma if v['masked'] else np
+                with np.errstate(all='ignore'):
+                    arr = getattr(mod, fn)(arr, axis=ax, keepdims=True)
+            else:
+                arr = np.apply_along_axis(lambda x: np.convolve(w32, x, mode=case['mode']), ax, arr)
+        g = got['vars'].get(v['name'])
+        if g is None:
+            return '%s: variable %s disappeared' % (case['text'], v['name'])
+        if g['dims'] != ('.'.join(v['dims']) or '-'):
+            return '%s: variable %s has dimensions %s' % (case['text'], v['name'], g['dims'])
+        m2 = np.ma.getmaskarray(arr).ravel() if np.ma.isMaskedArray(arr) else np.zeros(np.size(arr), bool)
+        d2 = np.ma.getdata(arr).ravel().astype('d')
+        if v['dtype'] == 'i' and touched and case['kind'] == 'convolve':
+            # convolve_dim assigns into a variable of the declared type (C cast); reduce_dim hands the float result on
+            d2 = np.trunc(d2)
+            if np.any(np.abs(d2[~m2]) >= 2 ** 31):
+                continue
+        cells = g['cells'].split(',') if g['cells'] != '-' else []
+        if len(cells) != d2.size:
+            return '%s: variable %s has %d cells, expected %d' % (case['text'], v['name'], len(cells), d2.size)
+        for i, c in enumerate(cells):
+            if (c == '_') != bool(m2[i]):
+                return '%s: variable %s cell %d masked=%s, numpy gives masked=%s' % (case['text'], v['name'], i, c == '_', bool(m2[i]))
+            if c != '_' and abs(float(Fraction(c)) - d2[i]) > 1e-9 * max(1.0, abs(d2[i])):
+                return '%s: variable %s cell %d = %s, numpy gives %r' % (case['text'], v['name'], i, c, d2[i])
+    return None
+
+
+def _oracle_ioapi(case, res):
+    """level edges after applyAlongDimensions(LAY=f): f(lower edges) followed by the last of f(upper edges)"""
+    from . import c10
+    op = case['c10']['ops'][0]
+    if not res['states'] or 'err' in res['states'][0]:
+        return None
+    st = res['states'][0]
+    if st['bad']:
+        return 'IOAPI file after %s: %s' % (op, '; '.join(st['bad']))
+    if op[1] == 'LAY':
+        vg0 = [Fraction(x) for x in res['init']['vglvls'].split(',')] if res['init']['vglvls'] != '-' else []
+        f = c10.FNS.get(op[2])
+        lo, hi = np.array([float(x) for x in vg0[:-1]]), np.array([float(x) for x in vg0[1:]])
+        if f is None:
+            lo2, hi2 = np.atleast_1d(getattr(lo, op[2])()), np.atleast_1d(getattr(hi, op[2])())
+        else:
+            lo2, hi2 = f(lo), f(hi)
+        want = list(lo2) + [hi2[-1]]
+        got = [float(Fraction(x)) for x in st['st']['vglvls'].split(',')] if st['st']['vglvls'] != '-' else []
+        if len(got) != len(want) or any(abs(a - b) > 1e-6 for a, b in zip(got, want)):
+            return 'VGLVLS after applyAlongDimensions(LAY=%s): %s, expected %s' % (op[2], got, want)
+    return None
+
+
 def classify(case, failure, model_out):
     return None
 
 
 def nontrivial(case, res):
+    if case.get('kind') == 'ioapi':
+        return bool(res.get('states')) and 'err' not in res['states'][0]
+    if case.get('kind') == 'convolve':
+        return 'obs' in res
     named = {k for k, fn in case['fns']}
     has = [bool(set(v['dims']) & named) for v in case['spec']['vars']]
     return (any(has) and not all(has)) or len(named) >= 2
@@ -159,8 +324,12 @@ def nontrivial(case, res):
 def distribution(recs):
     d = {}
     for r in recs:
+        if r['case'].get('kind'):
+            d[r['case']['kind']] = d.get(r['case']['kind'], 0) + 1
+            if r['case']['kind'] == 'ioapi':
+                continue
         for k, fn in r['case']['fns']:
             d[fn] = d.get(fn, 0) + 1
         if 'err' in r['impl']:
-            d['err_' + r['impl']['err']] = d.get('err_' + r['impl']['err'], 0) + 1
+            d['err_' + str(r['impl']['err'])] = d.get('err_' + str(r['impl']['err']), 0) + 1
     return d
